@@ -952,8 +952,6 @@ func main() {
 		c.Count("packs_errorsnap_decoded", 1)
 	})
 
-	// (8) histories of decodes into one object (redecode.go)
-	redecodeSection()
 
 	// (9) histories with several live objects, sequential and on several goroutines
 	historySections(false)
